@@ -7,6 +7,7 @@ require (
 	github.com/redis/rueidis/mock v1.0.76
 	github.com/redis/rueidis/rueidislimiter v0.0.0
 	github.com/redis/rueidis/rueidisprob v0.0.0
+	github.com/redis/rueidis/zzverif/luamini v0.0.0
 	github.com/twmb/murmur3 v1.1.8
 )
 
@@ -22,3 +23,5 @@ replace github.com/redis/rueidis/mock => /repo/mock
 replace github.com/redis/rueidis/rueidisprob => /repo/rueidisprob
 
 replace github.com/redis/rueidis/rueidislimiter => /repo/rueidislimiter
+
+replace github.com/redis/rueidis/zzverif/luamini => /verif/harness/luamini
